@@ -10,6 +10,7 @@ from eqsig.fns import frequency as fq
 
 from pbt import gen
 from pbt.core import clause, HarnessError
+from pbt.core import case_hash as core_case_hash
 from pbt.ref import ko as ref
 
 PROPERTY = "C07"
@@ -19,7 +20,7 @@ ASSUMPTIONS = [
     "import against a scalar double loop written directly from the statement",
     "spectra: either the library's own FAS of a record (n 3..1024 plus optional zero runs, all record kinds, dt in [1e-4, 1], "
     "frequencies k/(N dt), up to 1023 non-zero bins; its correctness is C06, it is taken as given) or raw arrays on linear / "
-    "geometric / irregular ascending grids of 1..300 positive frequencies in [1e-3, ~1e5] Hz, with or without a leading bin at "
+    "geometric / irregular ascending grids of 1..300 positive frequencies in [1e-9, ~1e5] Hz, with or without a leading bin at "
     "exactly 0 Hz; at least one non-zero frequency (a record of 2 samples has none: the mean of an empty set is undefined); "
     "DESIGN planned n >= 8, n 3..7 (one or three non-zero bins) is inside the quantifier and kept as an edge class",
     "amplitudes: complex, real non-negative, or real with signs (amplitude = |A|); raw magnitudes are c*shape with c = 10^-6..10^6, "
@@ -32,12 +33,23 @@ ASSUMPTIONS = [
     "tolerance on a smoothed amplitude S: 1e-12*S (covers summation of <= 1023 non-negative terms, (nf+64)*eps <= 2.5e-13) plus the "
     "conditioning bound of pbt/ref/ko.py (the window argument b*log10(f/fc) carries a rounding error of a few eps*(b+|x|); next to a "
     "zero of sin this is an unbounded *relative* error of a weight that is tiny in absolute terms)",
-    "bandwidth clause: the spectrum is an AccSignal's smoothed spectrum (taken as given; clause `definition` checks it), target "
-    "frequencies ascending (what logspace / any plotted spectrum supplies; 'ordered' and 'bracket' are statements about an ascending "
-    "grid), smoothed peak > 0 (an identically zero spectrum has no bandwidth); strict threshold comparisons use the 1e-9 margin "
-    "filter (DESIGN 2.4): a smoothed amplitude within 1e-9 (relative) of ratio*max is ambiguous and only bracket-checked",
-    "bandwidth clause additionally asserts tightness (the amplitude at both limits exceeds ratio*max, up to the margin): without it "
-    "'every frequency outside has amplitude <= ratio*max' is satisfied by the whole grid",
+    "bandwidth clause: the spectrum is an AccSignal's smoothed spectrum (taken as given; clause `definition` checks it), smoothing "
+    "frequencies in any order (ascending 3 of 5, descending, shuffled); smoothed peak > 0 (an identically zero spectrum has no "
+    "bandwidth); threshold comparisons use the 1e-9 margin filter (DESIGN 2.4)",
+    "bandwidth limits: asserted = the statement (f_min <= f_max, a smoothing frequency whose amplitude is within 1e-9 of the maximum "
+    "lies in [f_min, f_max]) + the docstrings' 'ratio of maximum value where bandwidth should be computed' read locally (a limit that "
+    "is a smoothing frequency has amplitude > ratio*max; the next smoothing frequency beyond it has not) + 'lower / upper frequency "
+    "of the bandwidth' (f_min / f_max = the halves of calc_bandwidth_freqs) + the signature defaults (ratio 0.707 / 15, band 40). "
+    "NOT asserted since the audit: limits are members of smooth_fa_freqs, limits are the first / last crossing of the whole grid, "
+    "get_sig_array_indexes_range indexes get_sig_freq_range, the default smoothing grid is 50 points on [0.1, 30], real dtype of the "
+    "result (a zero imaginary part is accepted), the number of Fourier bins (C06), purity of the arguments (C05)",
+    "candidate findings (reported, not in known_findings.json yet: while there is no entry the strict assertion is skipped and the case "
+    "labelled '<id>:pending'; an open entry routes through ctx.kf, a fixed entry makes it strict): C07-KF1 non-ascending smoothing "
+    "frequencies -> limits returned in array order (f_min > f_max); C07-KF2 gen_smooth_fa_spectrum(smooth_fa_freqs=<list / tuple>) "
+    "raises TypeError although the setters and the constructor coerce lists",
+    "cold caches: in a hash-chosen half of the bandwidth / record-length cases a bandwidth function (hash-chosen among the four) is the "
+    "first access to the smoothed spectrum of a fresh object / after a setter (band 40 then); the custom-matrix form runs on an object "
+    "whose Fourier spectrum was never read in half of the `weights` and record-length cases",
 ]
 EPS = float(np.finfo(float).eps)
 LD = np.longdouble
@@ -116,14 +128,14 @@ def _raw_source(draw, max_nf=300):
     nf = draw(st.one_of(st.integers(1, 8), st.integers(1, 64), st.integers(1, max_nf)))
     grid = {"k": gk, "nf": nf}
     if gk == "lin":
-        grid["df"] = draw(gen.log_uniform(1e-3, 10.0))
+        grid["df"] = draw(st.one_of(gen.log_uniform(1e-3, 10.0), gen.log_uniform(1e-9, 1e-3)))
     elif gk == "log":
-        grid["f0"] = draw(gen.log_uniform(1e-3, 1.0))
+        grid["f0"] = draw(st.one_of(gen.log_uniform(1e-3, 1.0), gen.log_uniform(1e-9, 1e-3)))
         grid["r"] = 1.0 + draw(gen.log_uniform(1e-3, 1.0))
         # keep the top of the grid below ~1e5 Hz
         grid["nf"] = nf = max(1, min(nf, int(math.log(1e5 / grid["f0"]) / math.log(grid["r"]))))
     else:
-        grid["f0"] = draw(gen.log_uniform(1e-3, 1.0))
+        grid["f0"] = draw(st.one_of(gen.log_uniform(1e-3, 1.0), gen.log_uniform(1e-9, 1e-3)))
         grid["span"] = draw(st.floats(0.5, 5.0, allow_nan=False))  # decades
         grid["seed"] = draw(st.integers(0, 2 ** 31 - 1))
     ak = draw(st.sampled_from(["sparse", "sparse", "sparse", "const", "power", "noise", "bump", "vals"]))
@@ -279,6 +291,8 @@ def _resolve(tspec, fpos):
 
 def _classify(ctx, case, s, targets, b=None):
     nf = len(s.fpos)
+    if s.fpos[0] < 1e-6:
+        ctx.cls("first-frequency<1e-6")
     ctx.cls(s.label, "zero-bin" if s.has_zero else "no-zero-bin",
             "nf=1" if nf == 1 else ("nf<=8" if nf <= 8 else ("nf<=64" if nf <= 64 else "nf>64")))
     ctx.cls("complex" if np.iscomplexobj(s.spec) else ("real-signed" if np.any(np.asarray(s.spec) < 0) else "real"))
@@ -317,7 +331,9 @@ def _tol(s_ref, cond):
 
 def _check_smooth(ctx, got, s_ref, cond, what):
     got = np.asarray(got)
-    ctx.check(not np.iscomplexobj(got), "%s: complex result" % what)
+    if np.iscomplexobj(got):  # the storage dtype is not the statement's business; a non-zero imaginary part is
+        ctx.check(bool(np.all(got.imag == 0)), "%s: non-zero imaginary part" % what)
+        got = got.real
     ctx.shape(got, (len(s_ref),), what)
     ctx.finite(got, what)
     ctx.close(got, s_ref, _tol(s_ref, cond), what + " vs reference weighted mean")
@@ -406,9 +422,10 @@ def definition(case, ctx):
             pass
     how = case.get("container", "ndarray")
     arg = targets if how == "ndarray" else (list(map(float, targets)) if how == "list" else tuple(map(float, targets)))
+    # the default smoothing grid is not part of the statement: whatever positive frequencies the object reports
     f_def = np.array(ctx.lib(lambda: asig.smooth_fa_freqs), dtype=float)
-    ctx.check(f_def.shape == (50,) and abs(f_def[0] - 0.1) <= 1e-12 and abs(f_def[-1] - 30) <= 3e-11 and np.all(np.diff(f_def) > 0),
-              "default smoothing frequencies are not 50 ascending points on [0.1, 30]")
+    ctx.check(f_def.ndim == 1 and len(f_def) >= 1 and bool(np.all(np.isfinite(f_def))) and bool(np.all(f_def > 0)),
+              "default smoothing frequencies are not positive finite numbers")
     d_ref, d_cond = ref.smooth(s.freqs, s.spec, f_def, 40)
     got = ctx.lib(lambda: asig.smooth_fa_spectrum)
     _check_smooth(ctx, got, d_ref, d_cond, "Signal.smooth_fa_spectrum (default frequencies)")
@@ -422,7 +439,10 @@ def definition(case, ctx):
     elif setter == "ctor":
         asig = ctx.lib(s.make, smooth_fa_freqs=arg)
     else:
-        ctx.lib(asig.gen_smooth_fa_spectrum, smooth_fa_freqs=targets, band=b)
+        # the setters and the constructor accept lists / tuples; gen_smooth_fa_spectrum stores its argument as it is and the pinned
+        # library then raises TypeError for a list (candidate finding C07-KF2)
+        t_arg = targets if (how == "ndarray" or _relaxed(ctx, "C07-KF2")) else arg
+        ctx.lib(asig.gen_smooth_fa_spectrum, smooth_fa_freqs=t_arg, band=b)
         band_now = b
     ctx.equal(np.asarray(asig.smooth_fa_freqs), targets, "smooth_fa_freqs after setter %r" % setter)
     ctx.equal(np.asarray(asig.smooth_fa_frequencies), targets, "smooth_fa_frequencies after setter %r" % setter)
@@ -438,6 +458,22 @@ def definition(case, ctx):
     _check_smooth(ctx, got, s_ref, cond, "Signal.smooth_fa_spectrum after generate_smooth_fa_spectrum(band=%r)" % b)
     ctx.equal(np.asarray(asig.fa_spectrum), spec_before, "fa_spectrum changed by smoothing")
     ctx.equal(np.asarray(asig.values), s.values, "record changed by smoothing")
+    # same object, same sizes, same band: other targets of the same length, then other values of the same length
+    t2 = targets * 1.0625
+    ctx.lib(asig.gen_smooth_fa_spectrum, smooth_fa_freqs=np.array(t2), band=b)
+    r2, c2 = ref.smooth(s.freqs, s.spec, t2, b)
+    _check_smooth(ctx, ctx.lib(lambda: asig.smooth_fa_spectrum), r2, c2, "Signal.smooth_fa_spectrum after other targets of the same length (same band)")
+    ctx.lib(setattr, asig, "smooth_fa_freqs", np.array(targets))
+    d40 = (s_ref, cond) if b == 40 else ref.smooth(s.freqs, s.spec, targets, 40)
+    _check_smooth(ctx, ctx.lib(lambda: asig.smooth_fa_spectrum), d40[0], d40[1], "Signal.smooth_fa_spectrum after the setter (band 40)")
+    ctx.lib(setattr, asig, "smooth_fa_frequencies", np.array(t2))
+    r3, c3 = (r2, c2) if b == 40 else ref.smooth(s.freqs, s.spec, t2, 40)
+    _check_smooth(ctx, ctx.lib(lambda: asig.smooth_fa_spectrum), r3, c3, "Signal.smooth_fa_spectrum after other targets of the same length through the setter")
+    v2 = np.array(s.values) * np.linspace(0.5, 1.5, len(s.values)) + 0.125 * (1.0 + float(np.max(np.abs(s.values))))
+    ctx.lib(asig.reset_values, v2)
+    fresh = ctx.lib(type(asig), v2, s.dt)
+    r4, c4 = ref.smooth(np.asarray(fresh.fa_frequencies), np.asarray(fresh.fa_spectrum), t2, 40)
+    _check_smooth(ctx, ctx.lib(lambda: asig.smooth_fa_spectrum), r4, c4, "Signal.smooth_fa_spectrum after reset_values (same length, same targets, same band)")
 
 
 # ---------------------------------------------------------------------------
@@ -514,6 +550,10 @@ def weights(case, ctx):
         # a matrix is a matrix: the reference weights through the same entry point
         via2 = ctx.lib(fq.calc_smooth_fa_spectrum_w_custom_matrix, s.asig, w_f)
         _check_smooth(ctx, via2, s_ref, cond, "matrix form with reference weights")
+        if int(core_case_hash(case)[:4], 16) % 2:
+            ctx.cls("custom-matrix-on-fresh-object")
+            via3 = ctx.lib(fq.calc_smooth_fa_spectrum_w_custom_matrix, ctx.lib(s.make), mat)
+            _check_smooth(ctx, via3, s_ref, cond, "matrix form on an object whose Fourier spectrum has not been read")
 
 
 # ---------------------------------------------------------------------------
@@ -607,6 +647,7 @@ def _bw_cases(draw):
             "b": draw(st.sampled_from([40, 40, 5, 100, 17.5]))}
     if mode == "targets":
         case["targets"] = draw(_targets())
+        case["order"] = draw(st.sampled_from(["asc", "asc", "asc", "desc", "shuffled"]))
     elif mode == "range":
         case["lo"] = draw(gen.log_uniform(1e-3, 10.0))
         case["hi"] = case["lo"] * draw(gen.log_uniform(1.5, 1e4))
@@ -628,31 +669,114 @@ def _limits(sm, freqs, lim):
     return amb, (int(loose[0]), int(strict[0])), (int(strict[-1]), int(loose[-1]))
 
 
+def _kf_states():
+    import json
+    import os
+    path = os.path.join(os.path.dirname(os.path.dirname(os.path.dirname(os.path.abspath(__file__)))), "known_findings.json")
+    try:
+        with open(path) as fh:
+            k = json.load(fh)
+        ents = k.get("findings", []) if isinstance(k, dict) else k
+        return {e.get("id"): e.get("status") for e in ents if isinstance(e, dict)}
+    except Exception:  # noqa
+        return {}
+
+
+_KF_STATE = _kf_states()
+
+
+def _relaxed(ctx, kid):
+    """Candidate findings reported to the coordinator: while known_findings.json has no entry `kid` the strict assertion is
+    skipped and the case labelled '<kid>:pending' (the check is in place, the decision is not mine); with an open entry it is the
+    usual known-finding routing (ctx.kf); with a fixed entry the assertion is strict."""
+    if _KF_STATE.get(kid) is None:
+        ctx.cls(kid + ":pending")
+        return True
+    return ctx.kf(kid)
+
+
+def _bw_check(ctx, freqs, sm, fmin, fmax, lim, what):
+    """What the statement says about a pair of bandwidth limits - ordered, bracketing the smoothed peak - plus the one fact the
+    functions' docstrings document ('ratio of maximum value where bandwidth should be computed'): a limit that is a smoothing
+    frequency has an amplitude above ratio*max, and the next smoothing frequency beyond it (below f_min / above f_max, in order
+    of frequency) has not.  NOT demanded (audit C07, section 4): that the limits are members of smooth_fa_freqs (an interpolated
+    crossing is as good), that they are the first / last crossing of the whole grid (the contiguous band round the peak is as
+    good).  1e-9 margin filter on every threshold comparison.
+    Smoothing frequencies in any order (quantifier: all target-frequency sets); on a non-ascending set the pinned library
+    returns the limits in array order (candidate finding C07-KF1)."""
+    fmin, fmax = float(fmin), float(fmax)
+    ascending = bool(np.all(np.diff(freqs) >= 0))
+    if not ascending:
+        ctx.cls("unordered-smoothing-frequencies")
+        if _relaxed(ctx, "C07-KF1"):
+            # what still holds: both values are smoothing frequencies whose amplitude exceeds the threshold
+            for name, fv in (("f_min", fmin), ("f_max", fmax)):
+                hit = freqs == fv
+                ctx.check(bool(np.any(hit)) and float(np.max(sm[hit])) > lim * (1 - MARGIN),
+                          "%s: %s=%r is not a smoothing frequency with amplitude above the threshold %r" % (what, name, fv, lim))
+            return
+    order = np.argsort(freqs, kind="stable")
+    fs, ss = freqs[order], sm[order]
+    mx = float(np.max(ss))
+    ctx.check(fmin <= fmax, "%s: limits not ordered: f_min=%r > f_max=%r" % (what, fmin, fmax))
+    near_peak = fs[ss >= mx * (1 - MARGIN)]
+    ctx.check(bool(np.any((near_peak >= fmin) & (near_peak <= fmax))),
+              "%s: limits (%r, %r) do not bracket the smoothed peak at %r Hz" % (what, fmin, fmax, float(fs[int(np.argmax(ss))])))
+    for name, fv, side in (("f_min", fmin, -1), ("f_max", fmax, 1)):
+        hit = fs == fv
+        if np.any(hit):
+            ctx.cls("limit-on-grid")
+            at = float(np.max(ss[hit]))
+            ctx.check(at > lim * (1 - MARGIN), "%s: amplitude %r at %s=%r does not exceed the threshold %r" % (what, at, name, fv, lim))
+        beyond = fs < fv if side < 0 else fs > fv
+        if np.any(beyond):
+            fnext = float(np.max(fs[beyond])) if side < 0 else float(np.min(fs[beyond]))
+            nb = float(np.min(ss[fs == fnext]))
+            if nb > lim * (1 + MARGIN):
+                ctx.fail("%s: the smoothing frequency %r next to %s=%r on the outside has amplitude %r > threshold %r" % (what, fnext, name, fv, nb, lim))
+            if nb > lim * (1 - MARGIN):
+                ctx.amb()
+
+
+
 @clause(CLAUSES, "bandwidth", _bw_cases(), quick=500, thorough=3000,
-        rule="AccSignal / Signal of a non-constant record (n 3..1024), smoothing frequencies = default 0.1-30 Hz, an ascending drawn "
-             "target set (on / beside / inside / outside the Fourier grid) or set_smooth_fa_frequecies_by_range / the deprecated smooth_freq_points + smooth_freq_range setters; band via "
+        rule="AccSignal / Signal of a non-constant record (n 3..1024), smoothing frequencies = default, a drawn target set (on / beside / "
+             "inside / outside the Fourier grid; ascending, descending or shuffled) or set_smooth_fa_frequecies_by_range / the deprecated "
+             "smooth_freq_points + smooth_freq_range setters; in a hash-chosen half of the cases one of the four bandwidth functions is the "
+             "first access to the smoothed spectrum of a fresh object / after the setter (band 40), otherwise band via "
              "gen_smooth_fa_spectrum; ratio in {0.707 (default), 2^-k, 0.9, 0.999999, 0.01, U(0.001,0.999)}; get_sig_freq_range ratio in "
              "{15 (default), 2, 4, 1.000001, 100, 1000, logU(1.001,1000)}; non-trivial = >= 3 smoothing frequencies, unambiguous and "
              "the limits are not simply the two ends of the grid",
-        oracle="reference model: front/back scan of the object's smoothed spectrum for amplitude > ratio*max (1e-9 margin filter: "
-               "equality of the returned frequencies when unambiguous, bracket otherwise); f_min <= f_peak <= f_max with f_peak at "
-               "argmax; limits are members of smooth_fa_freqs; every frequency outside has amplitude <= ratio*max, both limits exceed "
-               "it; calc_bandwidth_freqs == (calc_bandwidth_f_min, calc_bandwidth_f_max); get_sig_freq_range(1/ratio) identical for "
-               "ratio = 2^-k; get_sig_array_indexes_range gives the indices",
-        require={"mode=default": 0.1, "mode=targets": 0.2, "mode=range": 0.05, "interior-limit": 0.2},
+        oracle="the object's smoothed spectrum vs the reference weighted mean; limits: f_min <= f_max and a smoothing frequency with "
+               "(1e-9) maximal amplitude lies inside (statement); a limit that is a smoothing frequency has amplitude > ratio*max and "
+               "the next smoothing frequency beyond it has not (docstring, 1e-9 margin filter); calc_bandwidth_freqs == "
+               "(calc_bandwidth_f_min, calc_bandwidth_f_max); value of a first-access call == value afterwards; "
+               "get_sig_freq_range(1/ratio) identical for ratio = 2^-k; get_sig_array_indexes_range ordered and bracketing the peak; a "
+               "lower threshold never narrows the band; non-ascending sets: candidate finding C07-KF1",
+        require={"mode=default": 0.1, "mode=targets": 0.2, "mode=range": 0.05, "interior-limit": 0.2, "cold-cache": 0.3},
         min_nontrivial=0.2)
 def bandwidth(case, ctx):
     s = _build(case["src"], ctx)
-    asig = s.asig
     mode = case["mode"]
     ctx.cls("mode=" + mode, "kind=" + case["src"]["rec"]["k"])
+    hb = int(core_case_hash(case)[:8], 16)
+    # a bandwidth function is the FIRST thing to touch the object's smoothed spectrum (not for an identically zero spectrum: no bandwidth)
+    cold = hb % 2 == 0 and float(np.max(s.apos)) > 0
+    # cold cases start from an object whose Fourier / smoothed spectra have never been read (s.asig has been read by _build)
+    asig = ctx.lib(s.make) if cold else s.asig
+    order = case.get("order", "asc")
     if mode == "targets":
         targets = np.sort(_resolve(case["targets"], s.fpos))
+        if order == "desc":
+            targets = targets[::-1].copy()
+        elif order == "shuffled":
+            np.random.RandomState(hb % (2 ** 31 - 1)).shuffle(targets)
         ctx.lib(setattr, asig, "smooth_fa_freqs", targets)
     elif mode == "range":
         if case.get("how", "by_range") == "deprecated":
             ctx.cls("range-deprecated-setters")
-            ctx.lib(lambda: asig.smooth_fa_spectrum)  # cached at the default frequencies first: the setters must invalidate it
+            if not cold:
+                ctx.lib(lambda: asig.smooth_fa_spectrum)  # cached at the default frequencies first: the setters must invalidate it
             ctx.lib(setattr, asig, "smooth_freq_points", case["npts"])
             ctx.lib(setattr, asig, "smooth_freq_range", (case["lo"], case["hi"]))
         else:
@@ -661,8 +785,22 @@ def bandwidth(case, ctx):
         ctx.shape(fr, (case["npts"],), "smoothing frequencies set by range")
         ctx.check(abs(fr[0] - case["lo"]) <= 1e-11 * case["lo"] and abs(fr[-1] - case["hi"]) <= 1e-11 * case["hi"]
                   and bool(np.all(np.diff(fr) > 0)), "smoothing frequencies set by range: not an ascending grid on [%r, %r]" % (case["lo"], case["hi"]))
-    b = case["b"]
-    if b != 40:
+    ratio = case["ratio"]
+    big = case["big"]
+    b = 40 if cold else case["b"]   # a cold read smooths with the default band
+    pre = None
+    if cold:
+        ctx.cls("cold-cache")
+        which = (hb >> 1) % 4
+        if which == 0:
+            pre = ("calc_bandwidth_freqs", ctx.lib(im.calc_bandwidth_freqs, asig, ratio=ratio))
+        elif which == 1:
+            pre = ("calc_bandwidth_f_min", ctx.lib(im.calc_bandwidth_f_min, asig, ratio=ratio))
+        elif which == 2:
+            pre = ("calc_bandwidth_f_max", ctx.lib(im.calc_bandwidth_f_max, asig, ratio=ratio))
+        else:
+            pre = ("get_sig_freq_range", ctx.lib(fq.get_sig_freq_range, asig, ratio=big))
+    elif b != 40:
         ctx.lib(asig.gen_smooth_fa_spectrum, band=b)
     freqs = np.array(ctx.lib(lambda: asig.smooth_fa_frequencies), dtype=float)
     sm = np.array(ctx.lib(lambda: asig.smooth_fa_spectrum), dtype=float)
@@ -676,68 +814,55 @@ def bandwidth(case, ctx):
     if not mx > 0:
         ctx.cls("zero-spectrum")
         return
-    ipk = int(np.argmax(sm))
-    f_peak = freqs[ipk]
-    all_amb = False
-
-    def check_limits(fmin, fmax, lim, what):
-        got = _limits(sm, freqs, lim)
-        ctx.check(got is not None, "%s: reference finds no amplitude above the threshold" % what)  # cannot happen for ratio < 1
-        amb, (a0, a1), (b0, b1) = got
-        fmin, fmax = float(fmin), float(fmax)
-        ctx.check(fmin <= fmax, "%s: limits not ordered: f_min=%r > f_max=%r" % (what, fmin, fmax))
-        ctx.check(fmin <= f_peak <= fmax, "%s: limits (%r, %r) do not bracket the smoothed peak at %r Hz" % (what, fmin, fmax, f_peak))
-        ctx.check(bool(np.any(freqs == fmin)) and bool(np.any(freqs == fmax)),
-                  "%s: limits (%r, %r) are not members of smooth_fa_freqs" % (what, fmin, fmax))
-        outside = (freqs < fmin) | (freqs > fmax)
-        if np.any(outside):
-            worst = float(np.max(sm[outside]))
-            ctx.check(worst <= lim * (1 + MARGIN), "%s: a frequency outside [%r, %r] has smoothed amplitude %r > threshold %r" % (
-                what, fmin, fmax, worst, lim))
-        for name, fv in (("f_min", fmin), ("f_max", fmax)):
-            at = float(np.max(sm[freqs == fv]))
-            ctx.check(at > lim * (1 - MARGIN), "%s: amplitude %r at %s=%r does not exceed the threshold %r" % (what, at, name, fv, lim))
-        if amb:
-            ctx.amb()
-            ctx.check(freqs[a0] <= fmin <= freqs[a1], "%s: f_min=%r outside bracket [%r, %r]" % (what, fmin, freqs[a0], freqs[a1]))
-            ctx.check(freqs[b0] <= fmax <= freqs[b1], "%s: f_max=%r outside bracket [%r, %r]" % (what, fmax, freqs[b0], freqs[b1]))
-        else:
-            ctx.check(fmin == freqs[a1], "%s: f_min=%r, first frequency above the threshold is %r (index %d)" % (what, fmin, freqs[a1], a1))
-            ctx.check(fmax == freqs[b0], "%s: f_max=%r, last frequency above the threshold is %r (index %d)" % (what, fmax, freqs[b0], b0))
-        return amb, a1, b0
-
-    ratio = case["ratio"]
+    ascending = bool(np.all(np.diff(freqs) >= 0))
+    if pre is not None:
+        name, val = pre
+        if name == "calc_bandwidth_freqs":
+            _bw_check(ctx, freqs, sm, val[0], val[1], ratio * mx, "calc_bandwidth_freqs(ratio=%r) as the first access to the smoothed spectrum" % ratio)
+        elif name == "get_sig_freq_range":
+            _bw_check(ctx, freqs, sm, val[0], val[1], mx / big, "get_sig_freq_range(ratio=%r) as the first access to the smoothed spectrum" % big)
     both = ctx.lib(im.calc_bandwidth_freqs, asig, ratio=ratio)
     ctx.check(isinstance(both, (tuple, list, np.ndarray)) and len(both) == 2, "calc_bandwidth_freqs returned %r" % (both,))
-    amb, i0, i1 = check_limits(both[0], both[1], ratio * mx, "calc_bandwidth_freqs(ratio=%r)" % ratio)
-    all_amb = all_amb or amb
+    _bw_check(ctx, freqs, sm, both[0], both[1], ratio * mx, "calc_bandwidth_freqs(ratio=%r)" % ratio)
     fmin = ctx.lib(im.calc_bandwidth_f_min, asig, ratio)
     fmax = ctx.lib(im.calc_bandwidth_f_max, asig, ratio=ratio)
     ctx.check(np.ndim(fmin) == 0 and np.ndim(fmax) == 0, "calc_bandwidth_f_min / f_max are not scalars")
+    # 'Lower / Upper frequency of smooth Fourier spectrum bandwidth' (docstrings): the two halves of calc_bandwidth_freqs
     ctx.check(float(fmin) == float(both[0]) and float(fmax) == float(both[1]),
               "calc_bandwidth_f_min / f_max (%r, %r) != calc_bandwidth_freqs %r" % (fmin, fmax, both))
+    if pre is not None and pre[0] in ("calc_bandwidth_f_min", "calc_bandwidth_f_max"):
+        ctx.check(float(pre[1]) == float(fmin if pre[0].endswith("min") else fmax),
+                  "%s(ratio=%r) as the first access to the smoothed spectrum gave %r, afterwards %r" % (pre[0], ratio, pre[1], fmin if pre[0].endswith("min") else fmax))
+    if pre is not None and pre[0] == "calc_bandwidth_freqs":
+        ctx.check(float(pre[1][0]) == float(both[0]) and float(pre[1][1]) == float(both[1]),
+                  "calc_bandwidth_freqs as the first access to the smoothed spectrum gave %r, afterwards %r" % (pre[1], both))
     if ratio == 0.707:
+        # the default ratio is part of the documented signature (ratio=0.707)
         ctx.cls("default-ratio")
         d = ctx.lib(im.calc_bandwidth_freqs, asig)
         ctx.check(float(d[0]) == float(both[0]) and float(d[1]) == float(both[1]), "default ratio is not 0.707")
         ctx.check(float(ctx.lib(im.calc_bandwidth_f_min, asig)) == float(both[0]) and
                   float(ctx.lib(im.calc_bandwidth_f_max, asig)) == float(both[1]), "default ratio of f_min / f_max is not 0.707")
-    if not amb and (i0 > 0 or i1 < m - 1):
+    interior = ascending and (float(both[0]) > freqs[0] or float(both[1]) < freqs[-1])
+    if interior:
         ctx.cls("interior-limit")
-    if not amb and m >= 3 and (i0 > 0 or i1 < m - 1):
+    if not ctx.ambiguous and m >= 3 and interior:
         ctx.nt()
     # ratio > 1 form
-    big = case["big"]
     rng = ctx.lib(fq.get_sig_freq_range, asig, ratio=big)
     ctx.check(np.shape(rng) == (2,), "get_sig_freq_range returned %r" % (rng,))
-    amb2, j0, j1 = check_limits(rng[0], rng[1], mx / big, "get_sig_freq_range(ratio=%r)" % big)
+    _bw_check(ctx, freqs, sm, rng[0], rng[1], mx / big, "get_sig_freq_range(ratio=%r)" % big)
+    if pre is not None and pre[0] == "get_sig_freq_range":
+        ctx.check(float(pre[1][0]) == float(rng[0]) and float(pre[1][1]) == float(rng[1]),
+                  "get_sig_freq_range as the first access to the smoothed spectrum gave %r, afterwards %r" % (pre[1], rng))
+    # index form: the statement at index level (ordered, bracketing the peak) - ascending sets only
     idx = ctx.lib(fq.get_sig_array_indexes_range, sm, ratio=big)
-    ctx.check(len(idx) == 2 and freqs[int(idx[0])] == float(rng[0]) and freqs[int(idx[1])] == float(rng[1]),
-              "get_sig_array_indexes_range %r does not index get_sig_freq_range %r" % (idx, rng))
+    ctx.check(len(idx) == 2 and 0 <= int(idx[0]) <= int(idx[1]) < m, "get_sig_array_indexes_range returned %r for %d amplitudes" % (idx, m))
+    ctx.check(bool(np.any(sm[int(idx[0]):int(idx[1]) + 1] >= mx * (1 - MARGIN))), "get_sig_array_indexes_range %r does not bracket the peak" % (idx,))
     if big == 15:
-        d = ctx.lib(fq.get_sig_freq_range, asig)
+        d = ctx.lib(fq.get_sig_freq_range, asig)   # documented signature default ratio=15
         ctx.check(float(d[0]) == float(rng[0]) and float(d[1]) == float(rng[1]), "default ratio of get_sig_freq_range is not 15")
-    # the two forms agree exactly when 1/ratio is a power of two
+    # the two forms agree exactly when 1/ratio is a power of two (the same threshold, the same spectrum)
     if ratio in (0.5, 0.25, 0.125):
         ctx.cls("pow2-ratio")
         r2 = ctx.lib(fq.get_sig_freq_range, asig, ratio=1.0 / ratio)
@@ -745,7 +870,7 @@ def bandwidth(case, ctx):
                   "get_sig_freq_range(ratio=%r) %r != calc_bandwidth_freqs(ratio=%r) %r" % (1.0 / ratio, r2, ratio, both))
     # a lower threshold never narrows the band
     lo_lim, hi_lim = sorted([(ratio * mx, both), (mx / big, rng)], key=lambda t: t[0])
-    if not amb and not amb2:
+    if ascending and not ctx.ambiguous and abs(lo_lim[0] - hi_lim[0]) > 2 * MARGIN * hi_lim[0]:
         ctx.check(float(lo_lim[1][0]) <= float(hi_lim[1][0]) and float(lo_lim[1][1]) >= float(hi_lim[1][1]),
                   "band at the lower threshold %r is not a superset of the band at %r" % (lo_lim, hi_lim))
 
@@ -779,7 +904,10 @@ ASSUMPTIONS += [
     "pbt/ref/ko_mid.py) plus the conditioning bound; library vs the float64 all-target evaluation: twice that (both are double "
     "evaluations); the float64 layer itself must agree with the long-double sample to 1e-12 relative + conditioning bound, "
     "otherwise exit 2",
-    "mid-range bandwidth checks only on ascending target sets (as clause `bandwidth`)",
+    "mid-range spectra that are not a noise FAS: records of two impulses (every odd bin exactly 0), one impulse (flat), a sine (one "
+    "line) in the record-length ladder; raw amplitude arrays (3 lines on exact zeros, runs of zeros, flat, lines on a 1e-6 floor; "
+    "complex / signed / non-negative) on the record's frequency grid scaled by 1, 1e-3 or 1e-5 (first positive frequency down to ~1e-9 "
+    "Hz) for the array-level entry points in a third of the n_f / target / product cases",
 ]
 
 _MID_DTS = [0.0025, 0.004, 0.005, 0.01, 0.02]
@@ -807,7 +935,23 @@ def _mid_seed(tag, i):
     return _hh(gen.run_seed(), tag, i) % (2 ** 31 - 1)
 
 
-def _mid_record(npts, seed):
+def _mid_record(npts, seed, kind="noise"):
+    """noise: dense noise-like FAS; two-impulse (samples 0 and N/2 of the default power-of-two length N): FAS exactly 0 in every
+    odd bin; impulse: flat FAS; sine: one spectral line on a floor ~1e-13 below it."""
+    amp = 10.0 ** (seed % 5 - 2)
+    if kind == "two-impulse":
+        x = np.zeros(npts)
+        n2 = 1
+        while n2 < npts:
+            n2 *= 2
+        x[0] = x[n2 // 2] = 1.25 * amp
+        return x
+    if kind == "impulse":
+        x = np.zeros(npts)
+        x[seed % npts] = -2.5 * amp
+        return x
+    if kind == "sine":
+        return amp * np.sin(2 * math.pi * (7 + seed % 131) * np.arange(npts) / float(npts))
     rs = np.random.RandomState(seed)
     t = (np.arange(npts) + 1.0) / npts
     env = 0.15 + 1.8 * (4 * t) ** 2 * np.exp(-4 * t)
@@ -840,8 +984,42 @@ def _mid_targets(fpos, m, seed, style):
     return np.array(t, dtype=float)
 
 
+def _mid_amps(kind, nf, seed):
+    """Raw amplitude families on nf non-zero frequencies (mid-range spectra that are not a noise FAS): exact zeros, runs of
+    zeros, a flat spectrum, isolated lines on a low floor."""
+    rs = np.random.RandomState((seed * 31 + 7) % (2 ** 31 - 1))
+    c = 10.0 ** (seed % 7 - 3)
+    if kind == "sparse":
+        a = np.zeros(nf)
+        a[rs.randint(0, nf, 3)] = rs.uniform(0.1, 1.0, 3)
+    elif kind == "zero-runs":
+        a = np.abs(rs.standard_normal(nf)) + 0.01
+        for _ in range(6):
+            i0 = int(rs.randint(0, nf))
+            a[i0:i0 + max(1, nf // 9)] = 0.0
+    elif kind == "flat":
+        a = np.ones(nf)
+    elif kind == "spiky":
+        a = np.full(nf, 1e-3) * (1 + 0.5 * rs.uniform(size=nf))
+        a[rs.randint(0, nf, 5)] = 1e3 * rs.uniform(0.2, 1.0, 5)
+    else:
+        raise ValueError(kind)
+    a = a * c
+    spec = np.concatenate([[1e4 * c], a])   # the 0 Hz amplitude (an outlier: it takes no part)
+    mode = seed % 3
+    if mode == 0:
+        return spec * np.exp(1j * rs.uniform(0, 2 * math.pi, nf + 1))
+    if mode == 1:
+        return spec * rs.choice([-1.0, 1.0], nf + 1)
+    return spec
+
+
+_RAW_AMPS = ["sparse", "zero-runs", "flat", "spiky"]
+_ARRAY_FORMS = ("M", "D", "Dpos", "alias")
+
+
 def _mid_signal(ctx, case, x=None, **kw):
-    x = _mid_record(case["npts"], case["seed"]) if x is None else x
+    x = _mid_record(case["npts"], case["seed"], case.get("rec", "noise")) if x is None else x
     cls = eqsig.AccSignal if case.get("acc") else eqsig.Signal
     sig = ctx.lib(cls, x, case["dt"], **kw)
     if case.get("nfft"):
@@ -852,9 +1030,7 @@ def _mid_signal(ctx, case, x=None, **kw):
 def _mid_fas(ctx, sig, case):
     freqs = np.array(ctx.lib(lambda: sig.fa_freqs), dtype=float)
     spec = np.array(ctx.lib(lambda: sig.fa_spectrum))
-    want = case["nfft"] // 2 if case.get("nfft") else None
-    ctx.check(freqs.ndim == 1 and spec.shape == freqs.shape and len(freqs) >= 2 and freqs[0] == 0 and bool(np.all(np.diff(freqs) > 0))
-              and (want is None or len(freqs) == want), "Fourier spectrum of the record is not a one-sided spectrum on an ascending grid from 0 Hz "
+    ctx.check(freqs.ndim == 1 and spec.shape == freqs.shape and len(freqs) >= 2 and freqs[0] == 0 and bool(np.all(np.diff(freqs) > 0)), "Fourier spectrum of the record is not a one-sided spectrum on an ascending grid from 0 Hz "
               "(%d bins)" % len(freqs))
     return freqs, spec
 
@@ -889,7 +1065,9 @@ def _mid_reference(freqs, spec, targets, b, key, mat_t=None, ld_count=None):
 
 def _mid_check_smooth(ctx, got, r, what):
     got = np.asarray(got)
-    ctx.check(not np.iscomplexobj(got), "%s: complex result" % what)
+    if np.iscomplexobj(got):  # a weighted mean of magnitudes is a real number; the dtype it is stored in is not the statement's business
+        ctx.check(bool(np.all(got.imag == 0)), "%s: non-zero imaginary part" % what)
+        got = got.real
     ctx.shape(got, (r.m,), what)
     ctx.finite(got, what)
     s_f = np.asarray(r.s_ld, dtype=float)
@@ -935,50 +1113,43 @@ def _mid_check_matrix(ctx, mat, freqs, spec, targets, b, key, what):
     return r
 
 
-def _mid_limits_check(ctx, freqs, sm, fmin, fmax, lim, what):
-    got = _limits(sm, freqs, lim)
-    ctx.check(got is not None, "%s: reference finds no amplitude above the threshold" % what)
-    amb, (a0, a1), (b0, b1) = got
-    fmin, fmax = float(fmin), float(fmax)
-    f_peak = float(freqs[int(np.argmax(sm))])
-    ctx.check(fmin <= fmax, "%s: limits not ordered: f_min=%r > f_max=%r" % (what, fmin, fmax))
-    ctx.check(fmin <= f_peak <= fmax, "%s: limits (%r, %r) do not bracket the smoothed peak at %r Hz" % (what, fmin, fmax, f_peak))
-    ctx.check(bool(np.any(freqs == fmin)) and bool(np.any(freqs == fmax)), "%s: limits (%r, %r) are not members of smooth_fa_freqs" % (what, fmin, fmax))
-    outside = (freqs < fmin) | (freqs > fmax)
-    if np.any(outside):
-        worst = float(np.max(sm[outside]))
-        ctx.check(worst <= lim * (1 + MARGIN), "%s: a frequency outside [%r, %r] has smoothed amplitude %r > threshold %r" % (what, fmin, fmax, worst, lim))
-    for name, fv in (("f_min", fmin), ("f_max", fmax)):
-        at = float(np.max(sm[freqs == fv]))
-        ctx.check(at > lim * (1 - MARGIN), "%s: amplitude %r at %s=%r does not exceed the threshold %r" % (what, at, name, fv, lim))
-    if amb:
-        ctx.amb()
-        ctx.check(freqs[a0] <= fmin <= freqs[a1], "%s: f_min=%r outside bracket [%r, %r]" % (what, fmin, freqs[a0], freqs[a1]))
-        ctx.check(freqs[b0] <= fmax <= freqs[b1], "%s: f_max=%r outside bracket [%r, %r]" % (what, fmax, freqs[b0], freqs[b1]))
-    else:
-        ctx.check(fmin == freqs[a1], "%s: f_min=%r, first frequency above the threshold is %r (index %d of %d)" % (what, fmin, freqs[a1], a1, len(freqs)))
-        ctx.check(fmax == freqs[b0], "%s: f_max=%r, last frequency above the threshold is %r (index %d of %d)" % (what, fmax, freqs[b0], b0, len(freqs)))
+_BW_COLD = ["calc_bandwidth_freqs", "calc_bandwidth_f_min", "calc_bandwidth_f_max", "get_sig_freq_range"]
 
 
-def _mid_bandwidth(ctx, asig, key):
-    """Bandwidth limits of the object's smoothed spectrum (ascending smoothing frequencies) at three ratios < 1 and two > 1."""
+def _mid_bandwidth_cold(ctx, asig, key):
+    """One bandwidth function (hash-chosen) called on an object whose smoothed spectrum has not been read since it was built /
+    since its last setter; the value is checked afterwards by _mid_bandwidth(pre=...)."""
+    name = _BW_COLD[_hh(key, "cold-fn") % 4]
+    ctx.cls("cold-cache")
+    if name == "get_sig_freq_range":
+        return name, ctx.lib(fq.get_sig_freq_range, asig)
+    return name, ctx.lib(getattr(im, name), asig)
+
+
+def _mid_bandwidth(ctx, asig, key, pre=None):
+    """Bandwidth limits of the object's smoothed spectrum at three ratios < 1 and two > 1 (statement: ordered, bracket the
+    peak; docstrings: threshold semantics at the limits - see _bw_check)."""
     freqs = np.array(ctx.lib(lambda: asig.smooth_fa_frequencies), dtype=float)
     sm = np.array(ctx.lib(lambda: asig.smooth_fa_spectrum), dtype=float)
-    if len(freqs) < 1 or not np.all(np.diff(freqs) >= 0) or not float(np.max(sm)) > 0:
+    if len(freqs) < 1 or not float(np.max(sm)) > 0:
         return
     ctx.cls("bandwidth-checked")
     mx = float(np.max(sm))
     for ratio in (0.707, 0.5, round(0.05 + 0.93 * _hu(key, "ratio"), 6)):
         both = ctx.lib(im.calc_bandwidth_freqs, asig, ratio=ratio)
         ctx.check(isinstance(both, (tuple, list, np.ndarray)) and len(both) == 2, "calc_bandwidth_freqs returned %r" % (both,))
-        _mid_limits_check(ctx, freqs, sm, both[0], both[1], ratio * mx, "calc_bandwidth_freqs(ratio=%r), %d smoothing frequencies" % (ratio, len(freqs)))
+        _bw_check(ctx, freqs, sm, both[0], both[1], ratio * mx, "calc_bandwidth_freqs(ratio=%r), %d smoothing frequencies" % (ratio, len(freqs)))
         fmin = ctx.lib(im.calc_bandwidth_f_min, asig, ratio=ratio)
         fmax = ctx.lib(im.calc_bandwidth_f_max, asig, ratio=ratio)
         ctx.check(float(fmin) == float(both[0]) and float(fmax) == float(both[1]),
                   "calc_bandwidth_f_min / f_max (%r, %r) != calc_bandwidth_freqs %r (ratio=%r, %d smoothing frequencies)" % (fmin, fmax, both, ratio, len(freqs)))
         if ratio == 0.707:
-            d = ctx.lib(im.calc_bandwidth_freqs, asig)
+            d = ctx.lib(im.calc_bandwidth_freqs, asig)   # documented signature default
             ctx.check(float(d[0]) == float(both[0]) and float(d[1]) == float(both[1]), "default ratio of calc_bandwidth_freqs is not 0.707")
+            if pre is not None and pre[0].startswith("calc_bandwidth"):
+                want = both if pre[0] == "calc_bandwidth_freqs" else (both[0] if pre[0].endswith("min") else both[1])
+                ctx.check(np.array_equal(np.asarray(pre[1], dtype=float), np.asarray(want, dtype=float)),
+                          "%s as the first access to the smoothed spectrum gave %r, afterwards %r" % (pre[0], pre[1], want))
         if ratio == 0.5:
             r2 = ctx.lib(fq.get_sig_freq_range, asig, ratio=2.0)
             ctx.check(float(r2[0]) == float(both[0]) and float(r2[1]) == float(both[1]),
@@ -986,13 +1157,13 @@ def _mid_bandwidth(ctx, asig, key):
     for big in (15, round(1.05 * 50.0 ** _hu(key, "big"), 6)):
         rng = ctx.lib(fq.get_sig_freq_range, asig, ratio=big)
         ctx.check(np.shape(rng) == (2,), "get_sig_freq_range returned %r" % (rng,))
-        _mid_limits_check(ctx, freqs, sm, rng[0], rng[1], mx / big, "get_sig_freq_range(ratio=%r), %d smoothing frequencies" % (big, len(freqs)))
-        idx = ctx.lib(fq.get_sig_array_indexes_range, sm, ratio=big)
-        ctx.check(len(idx) == 2 and freqs[int(idx[0])] == float(rng[0]) and freqs[int(idx[1])] == float(rng[1]),
-                  "get_sig_array_indexes_range %r does not index get_sig_freq_range %r" % (idx, rng))
+        _bw_check(ctx, freqs, sm, rng[0], rng[1], mx / big, "get_sig_freq_range(ratio=%r), %d smoothing frequencies" % (big, len(freqs)))
         if big == 15:
-            d = ctx.lib(fq.get_sig_freq_range, asig)
+            d = ctx.lib(fq.get_sig_freq_range, asig)   # documented signature default
             ctx.check(float(d[0]) == float(rng[0]) and float(d[1]) == float(rng[1]), "default ratio of get_sig_freq_range is not 15")
+            if pre is not None and pre[0] == "get_sig_freq_range":
+                ctx.check(np.array_equal(np.asarray(pre[1], dtype=float), np.asarray(rng, dtype=float)),
+                          "get_sig_freq_range as the first access to the smoothed spectrum gave %r, afterwards %r" % (pre[1], rng))
 
 
 _DIRECT_FORMS = ["D", "O-set", "Dpos", "O-ctor", "alias", "O-gen"]
@@ -1006,18 +1177,18 @@ def _mid_direct(ctx, form, case, x, sig, freqs, spec, targets, b, zero, default_
     ctx.cls("form=" + form)
     if form == "D":
         if default_targets and b == 40 and case.get("omit_band"):
-            return ctx.lib(fq.calc_smooth_fa_spectrum, f_in, s_in), None
+            return ctx.lib(fq.calc_smooth_fa_spectrum, f_in, s_in), None, None
         if default_targets:
-            return ctx.lib(fq.calc_smooth_fa_spectrum, f_in, s_in, band=b), None
+            return ctx.lib(fq.calc_smooth_fa_spectrum, f_in, s_in, band=b), None, None
         if b == 40 and case.get("omit_band"):
-            return ctx.lib(fq.calc_smooth_fa_spectrum, f_in, s_in, t_in), None
-        return ctx.lib(fq.calc_smooth_fa_spectrum, f_in, s_in, t_in, band=b), None
+            return ctx.lib(fq.calc_smooth_fa_spectrum, f_in, s_in, t_in), None, None
+        return ctx.lib(fq.calc_smooth_fa_spectrum, f_in, s_in, t_in, band=b), None, None
     if form == "Dpos":
-        return ctx.lib(fq.calc_smooth_fa_spectrum, f_in, s_in, t_in, b), None
+        return ctx.lib(fq.calc_smooth_fa_spectrum, f_in, s_in, t_in, b), None, None
     if form == "alias":
         if b == 40 and case.get("omit_band"):
-            return ctx.lib(fq.generate_smooth_fa_spectrum, t_in, f_in, s_in), None
-        return ctx.lib(fq.generate_smooth_fa_spectrum, t_in, f_in, s_in, band=b), None
+            return ctx.lib(fq.generate_smooth_fa_spectrum, t_in, f_in, s_in), None, None
+        return ctx.lib(fq.generate_smooth_fa_spectrum, t_in, f_in, s_in, band=b), None, None
     t_obj = np.array(targets)
     if form == "O-ctor":
         _, o = _mid_signal(ctx, case, x, smooth_fa_freqs=t_obj)
@@ -1039,10 +1210,13 @@ def _mid_direct(ctx, form, case, x, sig, freqs, spec, targets, b, zero, default_
             ctx.lib(o.gen_smooth_fa_spectrum, smooth_fa_freqs=t_obj, band=b)
     else:
         raise ValueError(form)
+    pre = None
+    if form in ("O-ctor", "O-set") and b == 40 and case.get("omit_band") and case.get("bw") and float(np.max(np.abs(spec[1:]))) > 0:
+        # nothing has read the smoothed spectrum since the constructor / the setter: a bandwidth function does it first
+        pre = _mid_bandwidth_cold(ctx, o, "%s:%s" % (case["seed"], form))
     got = ctx.lib(lambda: o.smooth_fa_spectrum)
     ctx.equal(np.asarray(ctx.lib(lambda: o.smooth_fa_freqs)), targets, "smooth_fa_freqs of the object (%s)" % form)
-    ctx.equal(np.asarray(o.fa_spectrum), spec, "fa_spectrum of a second object from the same record")
-    return got, o
+    return got, o, pre
 
 
 def _mid_classes(ctx, case, nf, m):
@@ -1057,6 +1231,16 @@ def _mid_eval(case, ctx):
     """Generic mid-range case: record -> FAS -> targets -> every requested entry point against the two-layer reference."""
     x, sig = _mid_signal(ctx, case)
     freqs, spec = _mid_fas(ctx, sig, case)
+    forms = case["forms"]
+    if case.get("amp"):
+        # a raw spectrum (not the FAS of a record) on a raw frequency axis: the record's grid scaled by 10^-k, so that the first
+        # positive frequency goes down to ~1e-9 Hz (such a bin is NOT the 0 Hz bin); array-level entry points only
+        ctx.cls("amp=" + case["amp"], "fscale=%g" % case.get("fscale", 1.0))
+        freqs = freqs * float(case.get("fscale", 1.0))
+        spec = _mid_amps(case["amp"], len(freqs) - 1, case["seed"])
+        forms = [f for f in forms if f in _ARRAY_FORMS]
+    else:
+        ctx.cls("amp=fas")
     fpos = freqs[1:]
     nf = len(fpos)
     default_targets = case.get("m") is None
@@ -1069,8 +1253,8 @@ def _mid_eval(case, ctx):
     ctx.cls("targets=" + ("default" if default_targets else case.get("tstyle", "log")), "zero-bin" if zero else "no-zero-bin")
     if np.any(np.isin(targets, fpos)):
         ctx.cls("on-grid")
-    spec_before, freqs_before, t_before = np.array(spec), np.array(freqs), np.array(targets)
-    forms = case["forms"]
+    if not zero and fpos[0] < 1e-6:
+        ctx.cls("first-frequency<1e-6")
     r = None
     f_in = freqs if zero else fpos
     if "M" in forms:
@@ -1092,56 +1276,65 @@ def _mid_eval(case, ctx):
         del mat
     if r is None:
         r = _mid_reference(freqs, spec, targets, b, key)
-    obj = None
+    obj = pre = None
     for form in forms:
         if form in ("M", "C"):
             continue
-        got, o = _mid_direct(ctx, form, case, x, sig, freqs, spec, targets, b, zero, default_targets)
+        got, o, p_ = _mid_direct(ctx, form, case, x, sig, freqs, spec, targets, b, zero, default_targets)
         _mid_check_smooth(ctx, got, r, "%s (%d Fourier frequencies x %d targets, band=%r)" % (
             {"D": "calc_smooth_fa_spectrum", "Dpos": "calc_smooth_fa_spectrum", "alias": "generate_smooth_fa_spectrum"}.get(form, "Signal.smooth_fa_spectrum [%s]" % form), nf, m, b))
-        obj = o if o is not None else obj
+        if o is not None:
+            obj, pre = o, p_
     if case.get("const") and not default_targets:
         c = 10.0 ** (case["seed"] % 7 - 3) * 1.7
         ph = np.exp(1j * np.random.RandomState(case["seed"]).uniform(0, 2 * math.pi, len(f_in)))
         got = np.asarray(ctx.lib(fq.calc_smooth_fa_spectrum, f_in, c * ph, targets, band=b))
         ctx.close(got, np.full(m, c), 2 * r.rel * c, "constant spectrum not reproduced (%d x %d)" % (nf, m))
-    ctx.equal(spec, spec_before, "amplitude input mutated")
-    ctx.equal(freqs, freqs_before, "frequency input mutated")
-    ctx.equal(targets, t_before, "target input mutated")
-    if obj is not None and case.get("bw") and bool(np.all(np.diff(targets) >= 0)):
-        _mid_bandwidth(ctx, obj, key)
+    # (purity of the arguments is C05's claim, not C07's: no mutation checks here)
+    if obj is not None and case.get("bw"):
+        _mid_bandwidth(ctx, obj, key, pre)
     return r
 
 
 def _mid_reclen(case, ctx):
-    """Record-length ladder: the object with every smoothing setting at its default (50 points on 0.1-30 Hz, band 40), its
-    bandwidth limits, then matrix / direct form on a sub-set of those targets."""
+    """Record-length ladder: the object with every smoothing setting at its default, its bandwidth limits (in a hash-chosen half
+    of the cases a bandwidth function is the first thing that touches the object), then matrix / direct form on a sub-set of
+    those targets (custom-matrix form: in the other half on an object whose Fourier spectrum has never been read)."""
     x, sig = _mid_signal(ctx, case)
+    key = "%s:%s" % (gen.run_seed(), case["seed"])
+    ctx.cls("rec=" + case.get("rec", "noise"))
+    cold = _hh(key, "cold") % 2 == 0
+    pre = _mid_bandwidth_cold(ctx, sig, key) if cold else None
     sm = np.array(ctx.lib(lambda: sig.smooth_fa_spectrum))
     freqs, spec = _mid_fas(ctx, sig, case)
     nf = len(freqs) - 1
+    # whatever the default smoothing frequencies are (the statement does not say): the spectrum is the weighted mean at the
+    # frequencies the object reports
     targets = np.array(ctx.lib(lambda: sig.smooth_fa_freqs), dtype=float)
-    ctx.check(targets.shape == (50,) and abs(targets[0] - 0.1) <= 1e-12 and abs(targets[-1] - 30) <= 3e-11 and bool(np.all(np.diff(targets) > 0)),
-              "default smoothing frequencies are not 50 ascending points on [0.1, 30]")
-    key = "%s:%s" % (gen.run_seed(), case["seed"])
-    _mid_classes(ctx, case, nf, 50)
+    ctx.check(targets.ndim == 1 and len(targets) >= 1 and bool(np.all(np.isfinite(targets))) and bool(np.all(targets > 0)),
+              "default smoothing frequencies are not positive finite numbers: %r" % (targets[:4],))
+    nt = len(targets)
+    _mid_classes(ctx, case, nf, nt)
     ctx.cls("form=O-default")
-    r = _mid_reference(freqs, spec, targets, 40, key)
+    r = _mid_reference(freqs, spec, targets, 40, key)   # band=40: the documented signature default of gen_smooth_fa_spectrum
     _mid_check_smooth(ctx, sm, r, "Signal.smooth_fa_spectrum (record of %d samples, %d Fourier frequencies, default settings)" % (case["npts"], nf))
-    _mid_bandwidth(ctx, sig, key)
-    ctx.equal(np.asarray(sig.values), x, "record changed by smoothing")
-    k = int(min(12, max(3, 6e5 // nf)))
-    sub = np.array(refm.sample_indices(50, k, key + ":sub"), dtype=int)
+    _mid_bandwidth(ctx, sig, key, pre)
+    k = int(min(12, nt, max(3, 6e5 // nf)))
+    sub = np.array(refm.sample_indices(nt, k, key + ":sub"), dtype=int)
     t_sub = targets[sub]
     b = case["b"]
     mat = ctx.lib(fq.calc_smoothing_matrix_konno_1998, freqs, t_sub, band=b)
-    r2 = _mid_check_matrix(ctx, mat, freqs, spec, t_sub, b, key, "smoothing matrix (%d x %d)" % (nf, k))
-    via = ctx.lib(fq.calc_smooth_fa_spectrum_w_custom_matrix, sig, mat)
-    _mid_check_smooth(ctx, via, r2, "matrix form (%d x %d)" % (nf, k))
+    r2 = _mid_check_matrix(ctx, mat, freqs, spec, t_sub, b, key, "smoothing matrix (%d x %d)" % (nf, len(sub)))
+    who = sig
+    if not cold:
+        ctx.cls("custom-matrix-on-fresh-object")
+        _, who = _mid_signal(ctx, case, x)
+    via = ctx.lib(fq.calc_smooth_fa_spectrum_w_custom_matrix, who, mat)
+    _mid_check_smooth(ctx, via, r2, "matrix form (%d x %d)%s" % (nf, len(sub), "" if cold else " on an object whose Fourier spectrum has not been read"))
     got = ctx.lib(fq.calc_smooth_fa_spectrum, freqs, spec, t_sub, band=b)
-    _mid_check_smooth(ctx, got, r2, "calc_smooth_fa_spectrum (%d Fourier frequencies x %d targets, band=%r)" % (nf, k, b))
+    _mid_check_smooth(ctx, got, r2, "calc_smooth_fa_spectrum (%d Fourier frequencies x %d targets, band=%r)" % (nf, len(sub), b))
     if b == 40:
-        ctx.close(np.asarray(got), sm[sub], 2 * r.rel * sm[sub], "array level vs object level at the same targets")
+        ctx.close(np.asarray(got), sm[sub], 2 * r.rel * np.abs(sm[sub]) + 2 * r.sc.cond[sub], "array level vs object level at the same targets")
 
 
 def _mid_enum(tier, shard, nshards):
@@ -1161,7 +1354,7 @@ def _mid_enum(tier, shard, nshards):
     # (a) record length, default padding, default smoothing settings
     top = 2000000 if th else 300000
     for n in sorted(set(gen.size_ladder(2000, top, 24 if th else 8, tg + ":reclen", mined_limit=8 if th else 3)) | {top}):
-        add("reclen", npts=int(n), nfft=None)
+        add("reclen", npts=int(n), nfft=None, rec=["noise", "two-impulse", "noise", "impulse", "noise", "sine"][(len(cases) + rot) % 6])
     # (b) number of Fourier frequencies (explicit transform length), few targets
     top = 600000 if th else 150000
     for nf in sorted(set(gen.size_ladder(1000, top, 24 if th else 10, tg + ":nfreq", mined_limit=8 if th else 4)) | {top}):
@@ -1170,7 +1363,8 @@ def _mid_enum(tier, shard, nshards):
         m = _hint(3, max(3, min(24, int(1.0e6 // nf))), tg, "m", i)
         d = (i + rot) % 3
         add("nfreq", npts=_hint(nfft // 2 + 1, nfft, tg, "npts", i), nfft=nfft, m=m, tstyle=["log", "lin", "log", "grid"][i % 4],
-            zero=bool(i % 2), forms=["M", "C", ["D", "Dpos"][i % 2], "alias", ["O-set", "O-ctor", "O-gen"][d]], const=True)
+            zero=bool(i % 2), forms=["M", "C", ["D", "Dpos"][i % 2], "alias", ["O-set", "O-ctor", "O-gen"][d]], const=True, bw=True,
+            amp=_RAW_AMPS[(i + rot) % 4] if (i + rot) % 3 == 1 else None, fscale=[1.0, 1e-3, 1e-5][(i + rot) % 3])
     # (c) number of smoothing targets
     ms = sorted(set(gen.ladder(1, 20000 if th else 5000, 30 if th else 14, tg + ":ntarget")) | {20000 if th else 5000})
     for m in ms:
@@ -1181,7 +1375,8 @@ def _mid_enum(tier, shard, nshards):
         # the two largest target sets stay ascending (the bandwidth limits are checked on ascending sets only)
         style = ["log", "lin"][i % 2] if m >= ms[-2] else ["log", "lin", "log", "grid", "shuffled"][i % 5]
         add("ntarget", npts=_hint(nfft // 2 + 1, nfft, tg, "npts", i), nfft=nfft, m=int(m), tstyle=style,
-            zero=bool(i % 2), forms=["M", "C", ["D", "Dpos"][i % 2], "alias", ["O-set", "O-ctor", "O-gen"][d]], const=True, bw=True)
+            zero=bool(i % 2), forms=["M", "C", ["D", "Dpos"][i % 2], "alias", ["O-set", "O-ctor", "O-gen"][d]], const=True, bw=True,
+            amp=_RAW_AMPS[(i + rot) % 4] if (i + rot) % 4 == 2 and m < ms[-2] else None, fscale=[1e-5, 1.0, 1e-3][(i + rot) % 3])
     # (d) default targets = the Fourier frequencies themselves (square matrix)
     top = 7000 if th else 4000
     for nf in sorted(set(gen.ladder(300, top, 12 if th else 4, tg + ":square")) | {top}):
@@ -1248,7 +1443,9 @@ def _mid_products_enum(tier, shard, nshards):
                           "b": _MID_BANDS[(seed >> 5) % len(_MID_BANDS)], "omit_band": bool((seed >> 9) % 2),
                           "npts": _hint(nfft // 2 + 1, nfft, tg, "npts", name, rank), "nfft": nfft, "m": int(m),
                           "tstyle": ["log", "lin", "log", "grid", "shuffled"][(rank + si) % 5], "zero": bool((rank + si) % 2),
-                          "forms": forms, "const": p <= 1e6, "bw": p <= 4e6})
+                          "forms": forms, "const": p <= 1e6, "bw": p <= 4e6,
+                          "amp": _RAW_AMPS[(rank + off) % 4] if d in _ARRAY_FORMS and (rank + si + off) % 4 < 2 else None,
+                          "fscale": [1.0, 1e-3, 1e-5][(rank + off) % 3]})
     cases.sort(key=lambda c: -(c["nfft"] // 2 - 1) * c["m"])
     for i, c in enumerate(cases):
         if i % nshards == shard:
@@ -1363,8 +1560,10 @@ def mid_range_options(case, ctx):
         _mid_check_smooth(ctx, ctx.lib(fn), r, what)
     # object level
     for form in ("O-ctor", "O-set", "O-gen"):
-        got, o = _mid_direct(ctx, form, case, x, sig, freqs, spec, targets, b, zero, deft)
+        got, o, pre = _mid_direct(ctx, form, dict(case, bw=True), x, sig, freqs, spec, targets, b, zero, deft)
         _mid_check_smooth(ctx, got, r, "Signal.smooth_fa_spectrum [%s, band %s]" % (form, "omitted" if omit else repr(b)))
+        if pre is not None:
+            _mid_bandwidth(ctx, o, key, pre)
     # gen_smooth_fa_spectrum(smooth_fa_freqs=T) with the band left at its default
     _, o = _mid_signal(ctx, case, x)
     ctx.lib(o.gen_smooth_fa_spectrum, smooth_fa_freqs=np.array(targets))
@@ -1464,7 +1663,9 @@ def mid_range_history(case, ctx):
     read(sig, freqs, spec, t3, b, "after generate_smooth_fa_spectrum(band=%r) (repeated)" % b)
     t4 = _mid_targets(fpos, max(1, (2 * m) // 3), case["seed"] + 3, "log")
     ctx.lib(setattr, sig, "smooth_fa_freqs", np.array(t4))
+    pre = _mid_bandwidth_cold(ctx, sig, key + ":t4")   # first access after the setter
     read(sig, freqs, spec, t4, 40, "after %d new targets" % len(t4))
+    _mid_bandwidth(ctx, sig, key + ":t4", pre)
     x2 = _mid_record(case["npts"], case["seed"] + 7)
     ctx.lib(sig.reset_values, np.array(x2))
     f2 = np.array(ctx.lib(lambda: sig.fa_freqs), dtype=float)
@@ -1478,10 +1679,12 @@ def mid_range_history(case, ctx):
     ctx.close(got_h, got_f, 4 * refm.rel_for(len(f2)) * np.abs(got_f), "history object vs fresh object")
     lo, hi_ = float(f2[1] * 3.0), float(f2[-1] * 0.8)
     ctx.lib(sig.set_smooth_fa_frequecies_by_range, (lo, hi_), m)
+    pre = _mid_bandwidth_cold(ctx, sig, key + ":t5")   # first access after set_smooth_fa_frequecies_by_range
     t5 = np.array(ctx.lib(lambda: sig.smooth_fa_freqs), dtype=float)
     ctx.check(t5.shape == (m,) and abs(t5[0] - lo) <= 1e-11 * lo and abs(t5[-1] - hi_) <= 1e-11 * hi_ and (m == 1 or bool(np.all(np.diff(t5) > 0))),
               "set_smooth_fa_frequecies_by_range: not %d ascending points on [%r, %r]" % (m, lo, hi_))
     read(sig, f2, s2, t5, 40, "after set_smooth_fa_frequecies_by_range")
+    _mid_bandwidth(ctx, sig, key + ":t5", pre)
     m6 = max(2, (3 * m) // 4)
     ctx.lib(setattr, sig, "smooth_freq_points", m6)  # deprecated setter: m6 points on the range in force
     t6 = np.array(ctx.lib(lambda: sig.smooth_fa_freqs), dtype=float)
